@@ -693,6 +693,91 @@ class Streams:
                 self.disagree("convert_depthwise_to_conv", f"mult/ifm depth/ofm depth/kernel {desc}: model '{m}', real '{real}'",
                               {"stream": "dw2conv", "case": desc, "request": rq, "semantic_request": (sq or "")[:300]}, sm)
 
+
+    # ---- 5b. width-folded strided convolution (fixup_strided_conv): semantic check of the real output -----------
+    def stream_strided_conv(self, n):
+        from ethosu.vela import tflite_graph_optimiser as go
+        from ethosu.vela.data_type import DataType
+        from ethosu.vela.operation import Op, Padding
+        from ethosu.vela.tensor import create_const_tensor
+
+        from ethosu.vela.graph_optimiser_util import needed_total_padding
+
+        ck, rng = self.ck, self.rng
+        rows = []
+        # deterministic witnesses of the two known defects first: (H, W, C, kh, kw, O, sy, sx, same, first)
+        fixed = [(2, 18, 4, 1, 6, 1, 2, 4, True, True), (2, 10, 4, 2, 5, 1, 3, 6, True, False),
+                 (4, 24, 3, 1, 3, 2, 1, 9, True, True), (4, 34, 1, 3, 2, 2, 3, 6, True, True)]
+        for i in range(n):
+            sx = rng.choice([2, 2, 3, 4, 4, 5, 6, 8, 9, 12])
+            sy = rng.choice([1, 1, 2, 3])
+            kh = rng.choice([1, 1, 2, 3])
+            kw = rng.randint(1, 9)
+            C = rng.choice([1, 1, 2, 3, 4])
+            O = rng.choice([1, 2])
+            mult = rng.randint(1, 5)
+            W = sx * mult if rng.random() < 0.7 else rng.randint(max(kw, 1), 40)
+            H = rng.randint(max(kh, 1), 4)
+            same = rng.random() < 0.6
+            if not same and W < kw:
+                W = kw + rng.randint(0, 6)
+            first = rng.random() < 0.8
+            if i < len(fixed):
+                H, W, C, kh, kw, O, sy, sx, same, first = fixed[i]
+            ifm = self.tens([1, H, W, C], DataType.int8, 0.05, -3, "ifm")
+            wv = np.random.RandomState(rng.getrandbits(32)).randint(-127, 128, [kh, kw, C, O])
+            wt = self.const([kh, kw, C, O], DataType.int8, wv, 0.01, 0, "w")
+            bias = create_const_tensor("b", [O], DataType.int32, [0] * O)
+            if same:
+                oh, ow = -(-H // sy), -(-W // sx)
+            else:
+                oh, ow = (H - kh) // sy + 1, (W - kw) // sx + 1
+            ofm = self.tens([1, oh, ow, O], DataType.int8, 0.1, 0, "ofm")
+            attrs = {"padding": Padding.SAME if same else Padding.VALID, "stride_w": sx, "stride_h": sy, "dilation_w_factor": 1,
+                     "dilation_h_factor": 1, "strides": (1, sy, sx, 1)}
+            op = self.testutil.create_op(Op.Conv2DBias, [ifm, wt, bias], ofm, attrs)
+            op.run_on_npu = True
+            op.op_index = 0 if first else 3
+            try:
+                out = go.fixup_strided_conv(op, self.arch, None)
+                i4 = out.ifm_shapes[0].as_list()
+                nv = np.asarray(out.weights.values)
+                sx2, sy2 = out.get_kernel_stride()
+                pad = out.attrs["padding"]
+                mode, et, el = {Padding.SAME: "s", Padding.VALID: "v", Padding.EXPLICIT: "e"}[pad], 0, 0
+                if pad == Padding.EXPLICIT:
+                    et, el = int(out.attrs["explicit_padding"][0]), int(out.attrs["explicit_padding"][1])
+                changed = (i4[2], i4[3], nv.shape[1], sx2, sy2, mode) != (W, C, kw, sx, sy, "s" if same else "v")
+                real = f"{i4[2]}x{i4[3]} k{nv.shape[1]} s{sy2},{sx2} {mode}"
+                sem = (f"rwsem_sconv {H} {W} {C} {kh} {kw} {O} {sy} {sx} {int(same)} {i4[2]} {i4[3]} {nv.shape[1]} {sy2} {sx2} {mode} {et} {el} "
+                       f"{','.join(map(str, wv.reshape(-1)))} {','.join(map(str, nv.reshape(-1)))} {rng.getrandbits(16)}")
+                if list(nv.shape) != [kh, nv.shape[1], i4[3], O] or list(out.ofm_shapes[0].as_list()) != [1, oh, ow, O]:
+                    real = "?shapes " + real
+            except Exception as e:  # noqa: B902
+                real, sem, changed = "raises:" + type(e).__name__ + ":" + str(e)[:60], None, False
+            key = None
+            if sem is not None and same and i4[2] != W and W % i4[2] == 0:
+                # attribution (not the verdict): the explicit padding of the OFM-height/width-1 branch does not belong to the folded
+                # geometry -> it was computed from the unfolded width; otherwise the zero columns of the filter are the suspect
+                r_ = W // i4[2]
+                if mode == "e" and el != needed_total_padding(i4[2], sx // r_, nv.shape[1]) // 2 and (oh == 1 or ow == 1):
+                    key = "strided-conv-fold:unit-output-padding-from-unfolded-width"
+                else:
+                    key = "strided-conv-fold:filter-zero-padding-misaligned"
+            rows.append(((H, W, C, kh, kw, O, sy, sx, "SAME" if same else "VALID", "first" if first else "inner"), real, sem, changed, key))
+        sem_outs = iter(self.model([r[2] for r in rows if r[2] is not None]))
+        for desc, real, sq, changed, key in rows:
+            self.evaluations += 1
+            sm = next(sem_outs) if sq is not None else "no-semantic-request"
+            ck.count("rw_sconv_cases")
+            ck.count("rw_sconv_" + ("rewritten" if changed else "unchanged"))
+            self.nontrivial.add(("sconv",) + desc)
+            if real.startswith("raises"):
+                ck.count("rw_sconv_real_raises")
+            if real.startswith("?") or sm.startswith("fail") or sm.startswith("err") or real.startswith("raises"):
+                self.disagree("fixup_strided_conv", f"H,W,C,kh,kw,O,sy,sx,pad,pos={desc}: real '{real}'",
+                              {"stream": "sconv", "case": desc, "semantic_request": (sq or "")[:600]}, sm, key=key if sm.startswith("fail") else None)
+
     # ---- driver ------------------------------------------------------------------------------------
     def run(self):
         t = self.ck.thorough
@@ -703,6 +788,7 @@ class Streams:
         self.stream_fc(1500 if t else 300)
         self.stream_concat_split(3000 if t else 500)
         self.stream_dw2conv(1000 if t else 200)
+        self.stream_strided_conv(4000 if t else 600)
 
 
 def run(ck):
